@@ -81,6 +81,8 @@ def run_shard(shard, ctx):
         for j, ((p1, p2), t1, t2) in enumerate(sliced(space, *shard["slice"])):
             run_case({"kind": "vmx", "devs": [[*p1, TYPES[t1], NAMES[j % 3]], [*p2, TYPES[t2], NAMES[(j + 1) % 3] + "2"]],
                       "casing": CASINGS[j % 3], "extras": j % 4}, ctx)
+            run_case({"kind": "vmx", "devs": [[*p1, TYPES[t1], NAMES[j % 3]], [*p2, TYPES[t2], NAMES[(j + 1) % 3] + "2"]],
+                      "casing": CASINGS[j % 3], "extras": j % 4, "weave": 1 + j % 2}, ctx)
     elif kind == "vmx3":
         pos = [("scsi", 0, 0), ("scsi", 0, 1), ("sata", 0, 0), ("ide", 1, 0), ("nvme", 0, 0), ("scsi", 1, 0)]
         tsel = [0, 1, 5, 3, 7, 2]
@@ -91,6 +93,7 @@ def run_shard(shard, ctx):
                 continue
             devs = [[*ps[i], TYPES[ts[i]], f"d{i}-" + NAMES[(j + i) % 3]] for i in range(3)]
             run_case({"kind": "vmx", "devs": devs, "casing": CASINGS[j % 3], "extras": j % 4, "order": list(order)}, ctx)
+            run_case({"kind": "vmx", "devs": devs, "casing": CASINGS[j % 3], "extras": j % 4, "order": list(order), "weave": 1 + j % 2}, ctx)
     elif kind == "vmx-units":
         # pairs of device positions that coincide under some flattened numbering of (adapter, unit): units beyond 15 (SATA has
         # 30 ports, PVSCSI 64 targets, NVMe 15+ namespaces) next to low units of the following adapter, and ids whose digits
@@ -228,11 +231,20 @@ def _do_vmx(case):
         blocks = [blocks[i] for i in case["order"]]
     extra = EXTRA_BLOCKS[case["extras"]]
     lines = ['.encoding = "UTF-8"', 'config.version = "8"']
-    for i, b in enumerate(blocks):
-        lines += extra[i::max(1, len(blocks))]
-        lines += b
-    if not blocks:
+    if case.get("weave") and blocks:
+        # the entries of one device are not next to each other: round-robin over the devices' lines, from the front or the back
+        rows = [list(b) if case["weave"] == 1 else list(b)[::-1] for b in blocks]
         lines += extra
+        while any(rows):
+            for r in rows:
+                if r:
+                    lines.append(r.pop(0))
+    else:
+        for i, b in enumerate(blocks):
+            lines += extra[i::max(1, len(blocks))]
+            lines += b
+        if not blocks:
+            lines += extra
     text = "\n".join(lines) + "\n"
     got = _twice(VMX.parse(text).disks)
     exp = _vmx_expected([tuple(d) for d in devs])
